@@ -304,6 +304,70 @@ func (c *Ctx) runeCases(info *types.Info, body *ast.BlockStmt, v types.Object) (
 	return
 }
 
+func (c *Ctx) tokenRunesByEvaluation(sc *FuncInfo, chObj types.Object) (plain, cond map[string]bool, ok bool) {
+	if chObj == nil || sc == nil || sc.Decl.Body == nil {
+		return nil, nil, false
+	}
+	info := sc.Pkg.TypesInfo
+	// the top-level statement that reads the rune
+	k := -1
+	for i, s := range sc.Decl.Body.List {
+		if as, isAs := s.(*ast.AssignStmt); isAs && len(as.Lhs) == 1 && identObj(info, as.Lhs[0]) == chObj {
+			k = i
+			break
+		}
+	}
+	if k < 0 {
+		return nil, nil, false
+	}
+	rest := sc.Decl.Body.List[k+1:]
+	flag := paramObj(info, sc.Decl, 0)
+	recvT := recvNamed(sc.Obj)
+	isRead := func(fn *types.Func) bool { return fn != nil && fn.Name() == "read" && recvNamed(fn) == recvT && recvT != nil }
+	rescans := func(fn *types.Func) bool {
+		if fn == nil || !inRepo(fn) || recvNamed(fn) != recvT || recvT == nil || isRead(fn) || fn.Name() == "unread" || fn == sc.Obj {
+			return false
+		}
+		return c.reaches(fn, isRead, 3, map[*types.Func]bool{})
+	}
+	plain, cond = map[string]bool{}, map[string]bool{}
+	for r := rune(9); r < 127; r++ {
+		var ded [2]bool
+		for fi, fv := range []string{"false", "true"} {
+			ai := c.newAbsInt()
+			st := newState()
+			st.vars[chObj] = aOf(constAtom(constant.MakeInt64(int64(r))))
+			if flag != nil {
+				st.vars[flag] = aOf(fv)
+			}
+			reached, direct := 0, 0
+			ai.onReturn = func(ret *ast.ReturnStmt, depth int) {
+				if depth != 0 {
+					return
+				}
+				reached++
+				if !containsCall(info, ret, func(_ *ast.CallExpr, fn *types.Func) bool { return rescans(fn) }) {
+					direct++
+				}
+			}
+			ai.execList(info, sc, rest, st)
+			if ai.gaveUp != "" || reached == 0 || (direct != 0 && direct != reached) {
+				return nil, nil, false
+			}
+			ded[fi] = direct == reached
+		}
+		switch {
+		case ded[0] && ded[1]:
+			plain[string(r)] = true
+		case ded[0] && !ded[1]:
+			cond[string(r)] = true
+		case !ded[0] && ded[1]:
+			return nil, nil, false
+		}
+	}
+	return plain, cond, true
+}
+
 func (c *Ctx) newickTables(wt, wn, pi, sc, si, ii *FuncInfo) {
 	clause := "writing that tree again gives byte-identical text"
 	linfo := sc.Pkg.TypesInfo
@@ -329,6 +393,16 @@ func (c *Ctx) newickTables(wt, wn, pi, sc, si, ii *FuncInfo) {
 		})
 	}
 	plain, cond := c.runeCases(linfo, sc.Decl.Body, chObj)
+	// the same table by evaluation: Scan is run abstractly from the statement after the read, once
+	// per ASCII rune and value of the flag; a rune has a dedicated token when the return reached
+	// hands the token over itself instead of calling a helper that reads the token again. Any way of
+	// writing the dispatch (switch, if chain, look-up helper) gives the same table.
+	how := "read off the rune switch of Scan"
+	if p2, c2, ok := c.tokenRunesByEvaluation(sc, chObj); ok {
+		plain, cond = p2, c2
+		how = "Scan evaluated on every ASCII rune and both values of its flag"
+	}
+	c.Extra["token_rune_table"] = how
 	// isIdent: ch != 'x' conjuncts; the one or-ed with the flag is conditional
 	iplain, icond := map[string]bool{}, map[string]bool{}
 	chI := paramObj(linfo, ii.Decl, 0)
